@@ -36,6 +36,9 @@ def apis():
         'armaNormal': lambda seed: lsg.armaNormal(6, [1.0], [0.5], [0.3], 0.0, 1.0, randomSeed=seed),
         'arimaNormal': lambda seed: lsg.arimaNormal(6, 0.5, [0.5], [0.3], 0.0, 1.0, randomSeed=seed),
         'spectralRepresentation': lambda seed: [list(a) for a in lsg.spectralRepresentation(8, 2, [1.0, 2.0, 3.0], [1.0, 2.0, 1.0], randomSeed=seed)],
+        # thinned frequency grid (freqBandwidth of two grid steps): the other branch of the phase generation
+        'spectralRepresentation(freqBandwidth)': lambda seed: [list(a) for a in lsg.spectralRepresentation(8, 2, [1.0, 2.0, 3.0, 4.0, 5.0], [1.0, 2.0, 1.0, 0.5, 0.2],
+                                                                                                            freqBandwidth=2.0, randomSeed=seed)],
         'NatafTransformation.getSample': lambda seed: list(nat(seed).getSample()),
         'MetropolisHastingsSampler': mh,
         'AuModifiedMHSampler': au,
@@ -135,7 +138,7 @@ def explore(res, rng, n):
     names = sorted(A)
     # (1) same integer seed, different prior generator states -> identical output
     for name in names:
-        for seed in (0, 7, 12345):
+        for seed in (0, 7, 12345, 2 ** 31, 2 ** 32 - 1):
             o1, _ = run_sequence([('api', name, seed)], A, Cn, prior=11)
             o2, _ = run_sequence([('api', name, seed)], A, Cn, prior=222)
             res.evaluations += 1
@@ -148,7 +151,7 @@ def explore(res, rng, n):
     reqs, meta = [], []
     for i in range(n):
         k = rng.choice([2, 3, 4, 6])
-        gs = rng.choice([0, 3, 99])
+        gs = rng.choice([0, 3, 99, 2 ** 31 - 1, 2 ** 31, 3000000000, 2 ** 32 - 1])
         seq = [('set', gs)]
         for _ in range(k):
             r = rng.random()
@@ -157,9 +160,9 @@ def explore(res, rng, n):
             elif r < 0.8:
                 seq.append(('con', rng.choice(sorted(Cn)), rng.choice([None, None, 'x'])))
             elif r < 0.9:
-                seq.append(('api', rng.choice(names), rng.choice([4, 17])))
+                seq.append(('api', rng.choice(names), rng.choice([4, 17, 2 ** 31 + 5])))
             else:
-                seq.append(('set', rng.choice([5, None])))
+                seq.append(('set', rng.choice([5, None, 2 ** 32 - 1])))
         o1, t1 = run_sequence(seq, A, Cn, prior=31 + i)
         o2, t2 = run_sequence(seq, A, Cn, prior=977 + i)
         res.evaluations += 1
@@ -193,7 +196,7 @@ def explore(res, rng, n):
 
 def run(tier, seed):
     res = core.Result(PID, tier, seed)
-    res.rule = ('all ten randomised APIs with integer seeds from two different prior generator states; random operation sequences '
+    res.rule = ('all randomised APIs (spectral synthesis with and without frequency thinning) with integer seeds 0 .. 2^32-1 from two different prior generator states; random operation sequences '
                 '(setSeed, un-seeded / non-integer / integer-seeded calls, constructions) replayed from two prior states, with and '
                 'without an inserted construction; distinct by sequence')
     core.prove(res, PID, MODULES, clean=(tier == 'thorough'))
